@@ -64,6 +64,7 @@ def run(repo, chk):
                       'before the waiting-handlers gate; calls from error clauses pass the error')
     chk.rule('C04.e', 'done, success and completion processing are dominated by "no handler of the event is suspended"')
     chk.rule('C04.f', 'after a handler returned, only `is None` and "is a generator" let the result bypass the value setter')
+    chk.rule('C04.g', 'Value.setValue keeps a single result as such and accumulates further results in a list, in order, on every path')
     d = repo.func(MANAGER, 'Manager._dispatcher')
     t = repo.func(MANAGER, 'Manager.processTask')
     e = repo.func(MANAGER, 'Manager._eventDone')
@@ -75,6 +76,7 @@ def run(repo, chk):
     rule_d(repo, chk, d, t, e)
     rule_e(chk, e)
     rule_f(chk, d, t)
+    rule_g(repo, chk)
 
 
 def rule_a_b(chk, f, ev):
@@ -360,3 +362,47 @@ def rule_f(chk, d, t):
     p = Q.escapes(g, [s], lambda n: n in setters, avoid_edge=bypass_t, exc=())
     chk.ob('f', t.ref, 'a plain non-None value yielded by a suspended handler reaches `event.value.value = …`', p is None and bool(setters),
            loc(t, s.ast), path=pat.path_lines(p, s) if p else None, discr='yield-stored')
+
+
+def rule_g(repo, chk):
+    from .common import VALUES
+    f = repo.func(VALUES, 'Value.setValue')
+    chk.touch(f)
+    g = f.cfg()
+    v = f.params[1]
+    first = [n for n in g.nodes if n.kind == 'stmt' and isinstance(n.ast, ast.Assign) and src(n.ast.targets[0]) == 'self._value' and src(n.ast.value) == v]
+    wrap = [n for n in g.nodes if n.kind == 'stmt' and isinstance(n.ast, ast.Assign) and src(n.ast.targets[0]) == 'self._value'
+            and src(n.ast.value).replace(' ', '') in ('[self._value]', '[self._value,' + v + ']')]
+    apps = [n for n in g.nodes if n.kind == 'stmt' and any(r == 'self._value' and [src(a) for a in c.args] == [v] for r, c in pat.method_calls(n.ast, 'append'))]
+    bad_ops = [c for r, c in pat.method_calls(f.node, 'insert') + pat.method_calls(f.node, 'appendleft') + pat.method_calls(f.node, 'extend') if r == 'self._value']
+    has_T = pat.test_edge(lambda tt, pol: pol == 'T' and src(tt) == 'self.result')
+    has_F = pat.test_edge(lambda tt, pol: pol == 'F' and src(tt) == 'self.result')
+    ok = bool(first) and all(pat.guarded_by(g, n, has_F) is None for n in first)
+    chk.ob('g', f.ref, 'the first result is stored as such (only while no result has been stored yet)', ok, loc(f, (first or [g.entry])[0].ast if first else f.node),
+           discr='first-as-such')
+    ok = bool(apps) and all(pat.guarded_by(g, n, has_T) is None for n in apps) and not bad_ops
+    chk.ob('g', f.ref, 'further results are appended at the end of the list (no insert/extend)', ok, loc(f, f.node), detail='; '.join(src(c) for c in bad_ops),
+           discr='append-in-order')
+    ok = bool(wrap) and all(pat.guarded_by(g, n, has_T) is None for n in wrap)
+    for n in wrap:
+        if '[self._value]' == src(n.ast.value).replace(' ', ''):
+            p = Q.escapes(g, [n], lambda m: m in apps)
+            ok = ok and p is None
+    chk.ob('g', f.ref, 'the second result turns the stored value into a list [first, second]', ok, loc(f, f.node), discr='second-makes-list')
+    # every path stores the value somewhere
+    p = Q.escapes(g, [g.entry], lambda n: n in first or n in apps)
+    chk.ob('g', f.ref, 'every call stores the value (as such or appended)', p is None, loc(f, f.node), path=pat.path_lines(p) if p else None, discr='always-stored')
+    upd = f.nested.get('update')
+    ok = upd is not None and any(call_name(c) == 'update' and [src(a) for a in c.args] == ['self', v] for c in calls_in(f.node))
+    chk.ob('g', f.ref, 'flags are propagated after storing (update(self, value))', ok, loc(f, f.node), discr='flags-updated')
+    if upd is not None:
+        chk.touch(upd)
+        gu = upd.cfg()
+        o, vv = upd.params
+        res = [n for n in gu.nodes if n.kind == 'stmt' and o in pat.stores_attr(n.ast, 'result', True)]
+        okr = bool(res) and all(pat.guarded_by(gu, n, pat.test_edge(lambda tt, pol: pat.fact_matches(pat.compare_fact(tt, pol), vv, ('is not', '!='), 'None'))) is None for n in res)
+        edges = [e for n in gu.nodes if n.kind == 'test' for e in n.succ if pat.fact_matches(pat.compare_fact(n.ast, e.kind), vv, ('is not', '!='), 'None')]
+        okr = okr and bool(edges) and all(e.dst in res or Q.escapes(gu, [e.dst], lambda n: n in res) is None for e in edges)
+        chk.ob('g', upd.ref, 'a non-None plain result marks the value as having a result (None does not)', okr, loc(upd, upd.node), discr='result-flag')
+        par = [n for n in gu.nodes if n.kind == 'stmt' and f'{o}.parent' in pat.stores_attr(n.ast, 'errors')]
+        chk.ob('g', upd.ref, 'flags are propagated to the parent value', bool(par), loc(upd, upd.node), discr='parent-flags', nontrivial=False)
